@@ -387,7 +387,13 @@ func genTarget(r *rand.Rand) string {
 	tail := []string{"", "/", "/x", "/x?y=//z", "?next=//evil.example", "/%2e%2e", "/..", "//", "/\\x", "#f", "%00", "/a;b=c"}
 	t := pre[r.Intn(len(pre))] + host[r.Intn(len(host))] + tail[r.Intn(len(tail))]
 	if r.Intn(4) == 0 {
-		t = strings.Replace(t, "/", "//", 1+r.Intn(2))
+		// (slashes are doubled in the path only: an absolute-form target keeps its scheme and authority - "http:///x",
+		// a target without a host, is not something a browser sends, and what the router answers to it is not a flow start)
+		head, rest := "", t
+		if strings.HasPrefix(t, "http://"+hostOwn) {
+			head, rest = "http://"+hostOwn, t[len("http://"+hostOwn):]
+		}
+		t = head + strings.Replace(rest, "/", "//", 1+r.Intn(2))
 	}
 	if !strings.HasPrefix(t, "/") && !strings.HasPrefix(t, "http") {
 		t = "/" + t
